@@ -196,10 +196,16 @@ where
         Ok(trailer)
     }
     pub fn scan(&self) -> impl Iterator<Item = Result<ScanItem>> + '_ {
-        let xref_offset = self.backend.locate_xref_offset().unwrap();
-        let slice = self.backend.read(self.start_offset .. xref_offset).unwrap();
-        let mut lexer = Lexer::with_offset(slice, 0);
-        
+        // `startxref` is relative to the header, like every other offset in the file; the
+        // lexer is told where its slice starts so that stream ranges are absolute
+        let start_offset = self.start_offset;
+        let mut state = Some(
+            self.backend.locate_xref_offset()
+                .and_then(|xref_offset| start_offset.checked_add(xref_offset).ok_or(PdfError::Invalid))
+                .and_then(|end| self.backend.read(start_offset .. end))
+                .map(|slice| Lexer::with_offset(slice, start_offset))
+        );
+
         fn skip_xref(lexer: &mut Lexer) -> Result<()> {
             while lexer.next()? != "trailer" {
 
@@ -209,9 +215,17 @@ where
 
         let resolver = StorageResolver::new(self);
         std::iter::from_fn(move || {
+            // an unusable range is reported once as an error item
+            if let Some(Err(_)) = state {
+                return state.take().and_then(|s| s.err()).map(Err);
+            }
+            let lexer = match state {
+                Some(Ok(ref mut lexer)) => lexer,
+                _ => return None,
+            };
             loop {
                 let pos = lexer.get_pos();
-                match parse_indirect_object(&mut lexer, &resolver, self.decoder.as_ref(), ParseFlags::all()) {
+                match parse_indirect_object(lexer, &resolver, self.decoder.as_ref(), ParseFlags::all()) {
                     Ok((r, p)) => return Some(Ok(ScanItem::Object(r, p))),
                     Err(e) if e.is_eof() => return None,
                     Err(e) => {
@@ -220,10 +234,10 @@ where
                             debug!("next: {:?}", String::from_utf8_lossy(s.as_slice()));
                             match &*s {
                                 b"xref" => {
-                                    if let Err(e) = skip_xref(&mut lexer) {
+                                    if let Err(e) = skip_xref(lexer) {
                                         return Some(Err(e));
                                     }
-                                    if let Ok(trailer) = parse_with_lexer(&mut lexer, &NoResolve, ParseFlags::DICT).and_then(|p| p.into_dictionary()) {
+                                    if let Ok(trailer) = parse_with_lexer(lexer, &NoResolve, ParseFlags::DICT).and_then(|p| p.into_dictionary()) {
                                         return Some(Ok(ScanItem::Trailer(trailer)));
                                     }
                                 }
